@@ -146,13 +146,15 @@ impl World {
         if isfile {
             std::fs::write(s_root.path().join("src.bin"), &src).unwrap();
         }
-        for p in cfg["pre"].as_array().cloned().unwrap_or_default() {
-            let name = p[0].as_str().unwrap();
-            let path = r_root.path().join(name);
-            if p[1].as_str().unwrap() == "d" {
-                std::fs::create_dir_all(&path).unwrap();
-            } else {
-                std::fs::write(&path, vec![b'x'; p[2].as_u64().unwrap() as usize]).unwrap();
+        // pre-existing entries of the receiver's filestore: {"name": ["f"|"d", length]}
+        if let Some(pre) = cfg["pre"].as_object() {
+            for (name, p) in pre {
+                let path = r_root.path().join(name);
+                if p[0].as_str().unwrap() == "d" {
+                    std::fs::create_dir_all(&path).unwrap();
+                } else {
+                    std::fs::write(&path, vec![b'x'; p[1].as_u64().unwrap() as usize]).unwrap();
+                }
             }
         }
         let cktype = if s(cfg, "cksum") == "null" { ChecksumType::Null } else { ChecksumType::Modular };
@@ -363,7 +365,7 @@ impl World {
     }
 
     fn tree(&self) -> Value {
-        let mut v = vec![];
+        let mut m = serde_json::Map::new();
         let root = self.r_root.path();
         let mut stack = vec![root.to_path_buf()];
         while let Some(d) = stack.pop() {
@@ -371,18 +373,20 @@ impl World {
                 for e in rd.flatten() {
                     let p = e.path();
                     let rel = p.strip_prefix(root).unwrap().to_string_lossy().to_string();
+                    if rel == "dst.bin" {
+                        continue;
+                    }
                     if p.is_dir() {
-                        v.push((rel, "d".to_string(), 0u64));
+                        m.insert(rel, json!(["d", 0]));
                         stack.push(p);
                     } else {
                         let len = e.metadata().map(|m| m.len()).unwrap_or(0);
-                        v.push((rel, "f".to_string(), len));
+                        m.insert(rel, json!(["f", len]));
                     }
                 }
             }
         }
-        v.sort();
-        json!(v.iter().filter(|x| x.0 != "dst.bin").map(|(n, k, l)| json!([n, k, l])).collect::<Vec<_>>())
+        Value::Object(m)
     }
 
     fn dest(&self) -> Value {
@@ -501,10 +505,10 @@ async fn drain(w: &mut World) -> Vec<Value> {
 async fn run_script(script: &Value, out: &mut impl Write) {
     let cfg = &script["cfg"];
     let mut w = World::new(cfg);
-    writeln!(out, "{}", json!({"a": "Reset", "id": script["id"], "cfg": cfg, "steps": script["path"].as_array().map(|a| a.len()).unwrap_or(0)})).unwrap();
     w.start_sender();
     let init_ind = drain(&mut w).await;
-    let mut first = true;
+    writeln!(out, "{}", json!({"a": "Reset", "id": script["id"], "cfg": cfg, "ind": init_ind,
+                               "steps": script["path"].as_array().map(|a| a.len()).unwrap_or(0)})).unwrap();
     let mut lines: Vec<Value> = vec![];
     for (idx, step) in script["path"].as_array().unwrap().iter().enumerate() {
         let a = step["a"].as_str().unwrap();
@@ -678,13 +682,7 @@ async fn run_script(script: &Value, out: &mut impl Write) {
                 res = "unknown".into();
             }
         }
-        let mut ind = drain(&mut w).await;
-        if first {
-            let mut all = init_ind.clone();
-            all.extend(ind);
-            ind = all;
-            first = false;
-        }
+        let ind = drain(&mut w).await;
         let now = tokio::time::Instant::now().duration_since(w.t0);
         let ssnap = match w.sender.as_mut() {
             Some(t) => {
